@@ -661,6 +661,7 @@ async fn do_arrive(c: &mut Conn, idx: &str, id: u64, blocking: bool, notify: boo
         let deadline = Instant::now() + WATCHDOG;
         let what: String;
         let mut saturated_reply = false;
+        let mut sat_seen = false;
         loop {
             match c.next(deadline).await {
                 Seen::Event(SrvEvent::Entered(k)) if k == id => {
@@ -673,6 +674,7 @@ async fn do_arrive(c: &mut Conn, idx: &str, id: u64, blocking: bool, notify: boo
                     saturated_reply = true;
                     break;
                 }
+                Seen::Event(SrvEvent::Saturation) => sat_seen = true,
                 Seen::Event(_) => {}
                 Seen::Frame(f) if f.h.notify == 0 && (f.h.id == id || !notify) => {
                     // only one request can be unanswered here (parked handlers do not answer), so a frame
@@ -692,7 +694,8 @@ async fn do_arrive(c: &mut Conn, idx: &str, id: u64, blocking: bool, notify: boo
                 }
                 Seen::Frame(f) => c.stray.push(f),
                 Seen::Timeout => {
-                    let sig = if !blocking { if c.parked.is_empty() { "offreader.inline.no_response" } else { "offreader.reader_blocked" } } else { "offreader.arrive.no_effect" };
+                    // the refusal was reported to the hooks but the caller never got its ResourceExhausted answer
+                    let sig = if !blocking { if c.parked.is_empty() { "offreader.inline.no_response" } else { "offreader.reader_blocked" } } else if sat_seen && !notify { "offreader.refusal.no_response" } else { "offreader.arrive.no_effect" };
                     fails.push((sig.to_string(), format!("{idx}: request {id} ({}) had no observable effect within {:?} while {} handler(s) were parked (cap {:?})", if blocking { "blocking" } else { "inline" }, WATCHDOG, c.parked.len(), c.cap)));
                     return OpResult { obs: format!("{idx} timeout ; running {}", c.gauge()), fails, broken: true };
                 }
@@ -1225,17 +1228,31 @@ struct Gen {
     orphans: Vec<u64>,
     cap: Option<usize>,
     next_id: u64,
+    /// boundary ids already used in this script (each at most once: ids stay unique per script)
+    used_ids: Vec<u64>,
 }
+
+/// Request ids at the ends and seams of the range: the requests REFUSED at the cap cycle through them.
+const BOUNDARY_IDS: [u64; 6] = [0, u64::MAX, 1 << 32, 1 << 63, (1 << 32) - 1, 1];
+
 impl Gen {
     fn new(cap: Option<usize>, mw: bool, base: u64) -> Gen {
-        Gen { ops: vec![Op::Cap { cap, mw, ocap: None, dflt: false }], running: Vec::new(), orphans: Vec::new(), cap, next_id: base }
+        Gen { ops: vec![Op::Cap { cap, mw, ocap: None, dflt: false }], running: Vec::new(), orphans: Vec::new(), cap, next_id: base, used_ids: Vec::new() }
     }
     fn arrive(&mut self, blocking: bool, notify: bool, ec: u32) -> u64 {
+        // a blocking request that will find the cap reached carries the next unused boundary id
+        let full = self.cap.map(|c| self.running.len() >= c).unwrap_or(false);
+        if blocking && full {
+            if let Some(b) = BOUNDARY_IDS.iter().find(|b| !self.used_ids.contains(b)).copied() {
+                return self.arrive_id(b, blocking, notify, ec);
+            }
+        }
         self.next_id += 1;
         let id = self.next_id;
         self.arrive_id(id, blocking, notify, ec)
     }
     fn arrive_id(&mut self, id: u64, blocking: bool, notify: bool, ec: u32) -> u64 {
+        self.used_ids.push(id);
         self.ops.push(Op::Arrive { id, blocking, notify, ec });
         if blocking && self.cap.map(|c| self.running.len() < c).unwrap_or(true) {
             self.running.push(id);
